@@ -143,6 +143,11 @@ def install(eng, listing, pkg='github.com/bilibili/smgo/sm4', on_call=None):
             e.stats['instrs'] += m.steps
             e.asm_calls.append(rec)
             # copy back
+            if e.store_log is not None:
+                written = set(w[0] for w in m.writes)
+                for key, (name, eb, arr) in regions.items():
+                    if name in written:
+                        e.store_log.add(key[0])
             for key, (name, eb, arr) in regions.items():
                 cells = m.regions[name].cells
                 for i in range(len(arr)):
